@@ -25,21 +25,29 @@ for line in out.splitlines():
 sec.append("---------------------------------------------------------------------------\n")
 
 # §7
+nbreak = sum(1 for e in bank.BANK if e['kind']=='break'); nben = sum(1 for e in bank.BANK if e['kind']=='benign')
+refs = sorted(glob.glob(os.path.join(ROOT, "benign", "*", "patch_*.diff")))
+sets = sorted(set(os.path.basename(os.path.dirname(f)) for f in refs))
 s7 = ["## 7. Validating the checker (both directions)\n",
  "* **Silent on the repaired tree**: all 20 quick and thorough checks exit 0 on `/repo` (both architectures), no `KNOWN-FINDING` line.\n"
- "* **Fires on the unrepaired tree**: exactly F1–F6 (§5).\n"
- f"* **Self-test bank** (`mutants/bank.py`, {sum(1 for e in bank.BANK if e['kind']=='break')} break variants and {sum(1 for e in bank.BANK if e['kind']=='benign')} benign variants, listed per property in §4): each entry is a literal rewrite applied to a scratch copy of the working tree under the temp directory (never to `/repo`), checked in a separate process and removed. Last full run: every break variant is reported by the expected rule, every benign variant is silent. The thorough tier of each check re-runs its own entries and records `fired k/n` in the evidence. A rewrite whose source text is no longer present is skipped, so the bank cannot raise an alarm about the tree under test.\n"
+ "* **Fires on the unrepaired tree**: exactly F1–F7 (§5).\n"
+ f"* **Self-test bank** (`mutants/bank.py`, {nbreak} break variants and {nben} benign variants, listed per property in §4): each entry is a literal rewrite applied to a scratch copy of the working tree under the temp directory (never to `/repo`), checked in a separate process and removed. Last full run: every break variant is reported by the expected rule, every benign variant is silent. The thorough tier of each check re-runs its own entries and records `fired k/n` in the evidence. A rewrite whose source text is no longer present is skipped, so the bank cannot raise an alarm about the tree under test.\n"
+ f"* **Behaviour-preserving refactorings written by independent agents** (`benign/<set>/patch_NN.diff`, {len(refs)} patches in {len(sets)} sets: {', '.join(sets)}; each agent was asked for a different family of refactorings — helper extraction, inlining/renaming/moving of existing helpers, control-flow reshaping, performance-style edits, clarity/defensive edits, loop reshaping — had no access to `/verif`, and verified every patch against the unedited suite). The bank applies each patch to a scratch copy and requires *every* check to stay silent; the thorough tier of each property does the same for that property. This is the test of the 'never an alarm on code where the property holds' requirement; what it found and what was changed is listed in §5 (false alarms).\n"
  "* **Renaming robustness**: all unexported fields of the dense stores, both sketches and the paginated store (and its `sortBuffer`/`compact`) were renamed in a scratch copy: all checks silent.\n"
- "* **Independently seeded changes** (`/verif/seeded/<id>/`): fresh sub-agents were given only the text of one property and a scratch worktree, and asked for a change that breaks the property, compiles, passes the unedited suite and needs something specific to manifest, with a demonstration test. Each kept change was confirmed here in a scratch worktree (demonstration passes on the clean tree, fails with the change, full suite passes with the change), then the checks were run against `/repo` with the change applied and reverted. The table is generated from the `meta.json` files.\n"]
+ "* **Independently seeded changes** (`/verif/seeded/<id>/`, two rounds: A/B and C/D — the second-round agents were told which ideas had been used already): fresh sub-agents were given only the text of one property and a scratch worktree, and asked for a change that breaks the property, compiles, passes the unedited suite and needs something specific to manifest, with a demonstration test. Each kept change was confirmed here in a scratch worktree (demonstration passes on the clean tree, fails with the change, full suite passes with the change), then the checks were run against `/repo` with the change applied and reverted. The table is generated from the `meta.json` files; 'own check' says whether the check of the property the change was written against reports it (obligations shared between properties keep their home rule id).\n"]
 rows = []
+nown = 0
 for mf in sorted(glob.glob(os.path.join(ROOT, "seeded", "*", "meta.json"))):
     m = json.load(open(mf))
     det = "; ".join(sorted(set(k.split(":")[0] for k in m.get("detected_by", [])))) or "**missed**"
-    rows.append(f"| {m['seed_id']} | {m['property']} | {m['summary']} | {m['needs']} | {det} |")
+    own = "yes" if m.get("reported_by_own_property_check") else "no"
+    nown += own == "yes"
+    others = ", ".join(k for k in m.get("property_checks_reporting", {}) if k != m["property"])
+    rows.append(f"| {m['seed_id']} | {m['summary']} | {m['needs']} | {det} | {own} | {others or '—'} |")
 if rows:
-    s7.append("\n| seed | property | change | needs to manifest | reported by |\n|---|---|---|---|---|\n" + "\n".join(rows) + "\n")
+    s7.append("\n| seed | change | needs to manifest | rules reporting | own check | other checks reporting |\n|---|---|---|---|---|---|\n" + "\n".join(rows) + "\n")
     miss = [r for r in rows if "**missed**" in r]
-    s7.append(f"\n{len(rows)} seeded changes, {len(rows)-len(miss)} reported, {len(miss)} missed. Missed changes are numeric (§2.2) unless noted; rules were strengthened where a miss was structural (C08-D4 after C08/A; C02-D2 captures after C02/A and C04/A; C06-D3 after C06/A and C12/B; C04-D3 twin rule after C04/B).\n")
+    s7.append(f"\n{len(rows)} seeded changes kept, {len(rows)-len(miss)} reported by at least one check, {nown} by the check of their own property, {len(miss)} missed. Where a change was first missed the rules were strengthened (the history is in §5 and in the commit log): C08-D4 after C08/A; C02-D2 captures after C02/A, C04/A and C14/C; C06-D3 after C06/A and C12/B; C04-D3 twin rule after C04/B; C09-D1 always-written and C09-D3 forms-not-exclusive after C09/A and C09/B; C18-D4 float64le chain after C18/B; C05-D5/D6/D7 after C05/B and F7; C02-D4 window-covers-argument after C02/C; C08-D4/C06-D2 batch-room after C06/C; C05-D2 bounded growth and limit-is-constant after C05/C and C05/D; C03-D3 margin-in-the-exponent after C03/D; C10-D1 zero-weight rule after C10/D; and obligations were shared between properties whose statements overlap (C01, C04, C07, C08, C09, C11, C12, C13, C15, C16, C17).\n")
 s7.append("\n---------------------------------------------------------------------------\n")
 open(os.path.join(ROOT, "DESIGN.md"), "w").write(rd("tools/design/head.md") + "\n" + "\n".join(sec) + "\n" + rd("tools/design/tail.md") + "\n" + "".join(s7) + "\n" + rd("tools/design/tail2.md"))
 print("DESIGN.md written:", len(open(os.path.join(ROOT, 'DESIGN.md')).read().splitlines()), "lines")
